@@ -98,6 +98,55 @@ def gaussian_sites(ps, v=None):
     return out
 
 
+def _strip_casts(t):
+    while t and t[0] == "cast":
+        t = t[2]
+    return t
+
+
+def recentring_mean(v, fn, ps, rec, draw, sizeks):
+    """the value subtracted from every draw is the floating-point arithmetic mean of exactly those draws -> problems"""
+    from sa.pipeline import AnalysisBroken
+    arr = draw["lv"][1]
+    V = _strip_casts(rec["val"])
+    if not (V[0] in ("fop", "op") and V[1] == "/"):
+        raise AnalysisBroken("lweCreateKeySwitchKey: recentring value %s is not a quotient" % sym.show(rec["val"])[:80])
+    num, den = _strip_casts(V[2]), _strip_casts(V[3])
+    out = []
+    if den != sizeks:
+        out.append("the sum is divided by %s, there are %s draws" % (sym.show(den), sym.show(sizeks)))
+    if V[0] == "op":
+        out.append("the mean is computed by an integer division (line %s): its value is truncated to a whole number, i.e. 0 for noise of "
+                   "magnitude 1e-5, so nothing is subtracted" % rec["line"])
+    if num[0] == "var":
+        decl = [p for p in ps if p["kind"] == "local" and p.get("id") == num[2] and p["op"] == "decl"]
+        accs = [p for p in ps if p["kind"] == "local" and p.get("id") == num[2] and p["op"] == "+="]
+        other = [p for p in ps if p["kind"] == "local" and p.get("id") == num[2] and p["op"] not in ("decl", "+=", "=")]
+        if len(decl) != 1 or decl[0]["val"] not in (("float", 0.0),):
+            out.append("the accumulator %s is not a floating-point variable starting at 0 (initialiser %s)" % (
+                num[1], sym.show(decl[0]["val"]) if decl else None))
+        if other or len(accs) != 1 or len(accs[0]["loops"]) != 1:
+            out.append("the accumulator %s is not fed by exactly one '+=' in one loop" % num[1])
+        else:
+            lp = accs[0]["loops"][0]
+            if (lp["lo"], lp["cmp"], lp["hi"]) != (ZERO, "<", sizeks) or accs[0]["val"] != sym.idx(arr, lp["var"]):
+                out.append("the accumulator sums %s over [%s,%s), not the draws noise[i] over [0, n*t*(base-1))" % (
+                    sym.show(accs[0]["val"])[:60], sym.show(lp["lo"]), sym.show(lp["hi"])))
+    elif num[0] == "call" and num[1] in ("std::accumulate", "accumulate") and len(num[2]) >= 3:
+        a = num[2]
+        if a[0] != arr or a[1] != sym.padd(arr, sizeks):
+            out.append("std::accumulate runs over [%s, %s), not over the %s draws" % (sym.show(a[0])[:40], sym.show(a[1])[:60], sym.show(sizeks)))
+        node = next((n for n in walk(fn.d.get("body")) if n.get("k") == "call" and n.get("callee") in ("std::accumulate", "accumulate")), None)
+        ty = (node or {}).get("t", "")
+        if ty.replace("const ", "") not in ("double", "long double", "float"):
+            out.append("std::accumulate is instantiated with an initial value of type %s (line %s): every partial sum is converted to %s, "
+                       "so the sum of draws of magnitude 1e-5 is 0 and nothing is subtracted; the key-switching noise keeps its random mean" % (
+                           ty or "?", (node or {}).get("l"), ty or "?"))
+    else:
+        raise AnalysisBroken("lweCreateKeySwitchKey: sum of the draws %s not recognised" % sym.show(num)[:80])
+    return out
+
+
 def contains_call(t, name):
     if not isinstance(t, tuple) or not t:
         return False
@@ -108,6 +157,110 @@ def contains_call(t, name):
     if t[0] == "poly":
         return any(any(contains_call(a, name) for a in m) for m, _ in t[1])
     return any(contains_call(x, name) for x in t[1:] if isinstance(x, tuple))
+
+
+def check_ks_noise(chk, v, rule="R2"):
+    """key-switching key: one Gaussian per row, recentred by the floating mean of exactly those draws, consumed in order"""
+    vn = v.name
+    # ---------------- R2 noise is added: key switch bookkeeping
+    ks = v.fn("lweCreateKeySwitchKey")
+    kps, _ = summ.pieces(v, ks, hooks=NOINLINE)
+    res, in_key, out_key = [p["n"] for p in ks.params]
+    n_, t_, bb = P(res, "n"), P(res, "t"), P(res, "basebit")
+    base = ("op", "<<", I(1), bb)
+    sizeks = sym.mul(sym.mul(n_, t_), sym.sub(base, I(1)))
+    problems = []
+    draws = [p for p in kps if p["kind"] == "store" and p["loops"] and p["val"][0] in ("call", "obj") and "operator()" in p["val"][1]]
+    if len(draws) != 1 or (draws[0]["loops"][0]["lo"], draws[0]["loops"][0]["hi"]) != (ZERO, sizeks) or draws[0]["lv"][2] != draws[0]["loops"][0]["var"]:
+        problems.append("noise draws: %s; expected noise[i] for i in [0, n*t*(base-1))" % [summ.show_piece(p)[:100] for p in draws])
+    # consumers: every statement that reads noise[X] other than the draw, the running sum and the recentring
+    from sa.pipeline import AnalysisBroken
+    narr = draws[0]["lv"][1] if draws else None
+    consumers = []
+    for p in kps:
+        if narr is None or p in draws:
+            continue
+        terms = list(p.get("args") or []) + ([p["val"]] if p.get("val") is not None else [])
+        reads = [st for t in terms if t is not None for st in sym.subterms(t) if st[0] == "idx" and st[1] == narr]
+        if not reads:
+            continue
+        if p["kind"] == "local" and p["op"] == "+=" and len(p["loops"]) == 1:
+            continue            # running sum of the draws
+        if p["kind"] == "store" and p["lv"][0] == "idx" and p["lv"][1] == narr:
+            continue            # recentring statement
+        if p["kind"] == "call" and p["name"] in ("std::accumulate", "accumulate"):
+            continue
+        consumers.append((p, reads))
+    idx_inc = [p for p in kps if p["kind"] == "local" and p["op"] in ("+=", "++") and p["loops"]]
+    if not consumers:
+        problems.append("the recentred draws are never added to a row")
+    elif len(consumers) != 1:
+        raise AnalysisBroken("lweCreateKeySwitchKey: %d statements consume the noise array" % len(consumers))
+    else:
+        cons, reads = consumers[0]
+        nz = reads[0]
+        if len(reads) != 1 or nz[2][0] != "var":
+            raise AnalysisBroken("lweCreateKeySwitchKey: noise operand %s is not noise[<running index>]" % sym.show(nz))
+        inc = [p for p in idx_inc if p.get("id") == nz[2][2]]
+        if len(inc) != 1 or inc[0]["loops"] != cons["loops"] or inc[0]["guards"] != cons["guards"] or \
+                (inc[0]["op"] == "+=" and inc[0]["val"] != I(1)):
+            problems.append("the noise index is not advanced exactly once per consuming row")
+        decl = [p for p in kps if p["kind"] == "local" and p.get("id") == nz[2][2] and p["op"] == "decl"]
+        if len(decl) != 1 or decl[0]["val"] != ZERO:
+            problems.append("the noise index does not start at 0")
+        # number of consuming rows == number of draws, for every (n, t, basebit): index sets enumerated on a small grid
+        from sa import secretflow
+        dims = [n_, t_, bb]
+        import itertools
+
+        def count(loops, guards, env):
+            tot = [0]
+
+            def go(k, env):
+                if k == len(loops):
+                    for g_ in guards:
+                        gv = secretflow.eval_term(g_, env)
+                        if gv is None:
+                            raise AnalysisBroken("lweCreateKeySwitchKey: guard %s not evaluable" % sym.show(g_))
+                        if not gv:
+                            return
+                    tot[0] += 1
+                    return
+                l = loops[k]
+                lo, hi, stp = secretflow.eval_term(l["lo"], env), secretflow.eval_term(l["hi"], env), sym.const_value(l["step"])
+                if lo is None or hi is None or not stp or stp <= 0 or l["cmp"] not in ("<", "<="):
+                    raise AnalysisBroken("lweCreateKeySwitchKey: loop at line %s not evaluable" % l.get("l"))
+                i_ = lo
+                while (i_ < hi) if l["cmp"] == "<" else (i_ <= hi):
+                    e2 = dict(env)
+                    e2[l["var"]] = i_
+                    go(k + 1, e2)
+                    i_ += stp
+            go(0, env)
+            return tot[0]
+        if draws:
+            for vals in itertools.product((1, 2, 3), repeat=3):
+                env = dict(zip(dims, vals))
+                nd = count(draws[0]["loops"], draws[0]["guards"], env)
+                nc = count(cons["loops"], cons["guards"], env)
+                if nd != nc:
+                    problems.append("with n=%d, t=%d, basebit=%d: %d Gaussians are drawn and recentred, %d rows consume one (line %s): the mean "
+                                    "subtracted is not the mean of the values actually used" % (vals[0], vals[1], vals[2], nd, nc, cons["line"]))
+                    break
+        if cons["kind"] == "call" and cons["name"] == "lweSymEncryptWithExternalNoise":
+            if cons["args"][2] != nz:
+                problems.append("row noise operand is %s, not noise[index]" % sym.show(cons["args"][2]))
+            if cons["args"][4] != sym.sym(out_key):
+                problems.append("rows are encrypted under %s, not under the output key" % sym.show(cons["args"][4]))
+    # recentring: err = sum / sizeks ; noise[i] -= err over the same range
+    recentre = [p for p in kps if p["kind"] == "store" and p["op"] == "-=" and p["loops"] and draws and p["lv"][1] == draws[0]["lv"][1]]
+    if len(recentre) != 1 or (recentre[0]["loops"][0]["lo"], recentre[0]["loops"][0]["hi"]) != (ZERO, sizeks):
+        problems.append("recentring does not cover exactly the draws")
+    if len(recentre) == 1 and draws:
+        problems += recentring_mean(v, ks, kps, recentre[0], draws[0], sizeks)
+    chk.require(not problems, rule, "lweCreateKeySwitchKey: one recentred Gaussian per row (i, j, h>=1), consumed in order", where=ks.where,
+                ok="n*t*(base-1) draws; mean of those draws subtracted from each; row (i,j,h) takes noise[index++] under the output key",
+                bad="; ".join(problems)[:500], variant=vn)
 
 
 def run(chk):
@@ -179,40 +332,7 @@ def run(chk):
         ok = ok and lin is not None and lin[0] == I(1) and contains_call(lin[1], "dtot32")
         chk.require(ok, "R2", "gaussian32(message, sigma) = message + dtot32(N(0, sigma)) drawn from the process generator", where=g.where,
                     ok="normal_distribution(0, sigma)(generator); return message + dtot32(err)", bad=[summ.show_piece(p)[:100] for p in gps], variant=vn)
-        # ---------------- R2 noise is added: key switch bookkeeping
-        ks = v.fn("lweCreateKeySwitchKey")
-        kps, _ = summ.pieces(v, ks, hooks=NOINLINE)
-        res, in_key, out_key = [p["n"] for p in ks.params]
-        n_, t_, bb = P(res, "n"), P(res, "t"), P(res, "basebit")
-        base = ("op", "<<", I(1), bb)
-        sizeks = sym.mul(sym.mul(n_, t_), sym.sub(base, I(1)))
-        problems = []
-        draws = [p for p in kps if p["kind"] == "store" and p["loops"] and p["val"][0] in ("call", "obj") and "operator()" in p["val"][1]]
-        if len(draws) != 1 or (draws[0]["loops"][0]["lo"], draws[0]["loops"][0]["hi"]) != (ZERO, sizeks) or draws[0]["lv"][2] != draws[0]["loops"][0]["var"]:
-            problems.append("noise draws: %s; expected noise[i] for i in [0, n*t*(base-1))" % [summ.show_piece(p)[:100] for p in draws])
-        enc = [p for p in kps if p["kind"] == "call" and p["name"] == "lweSymEncryptWithExternalNoise"]
-        idx_inc = [p for p in kps if p["kind"] == "local" and p["op"] in ("+=", "++") and len(p["loops"]) == 3]
-        if len(enc) != 1 or len(enc[0]["loops"]) != 3:
-            problems.append("rows are not encrypted in an (i,j,h) nest")
-        else:
-            (il, jl, hl) = enc[0]["loops"]
-            trip = sym.mul(sym.mul(sym.sub(il["hi"], il["lo"]), sym.sub(jl["hi"], jl["lo"])), sym.sub(hl["hi"], hl["lo"]))
-            if trip != sizeks:
-                problems.append("%s rows consume noise, %s draws were made" % (sym.show(trip), sym.show(sizeks)))
-            nz = enc[0]["args"][2]
-            if not (nz[0] == "idx" and draws and nz[1] == draws[0]["lv"][1] and nz[2][0] == "var"):
-                problems.append("row noise operand is %s, not noise[index]" % sym.show(nz))
-            if len(idx_inc) != 1:
-                problems.append("the noise index is not advanced exactly once per row")
-            if enc[0]["args"][4] != sym.sym(out_key):
-                problems.append("rows are encrypted under %s, not under the output key" % sym.show(enc[0]["args"][4]))
-        # recentring: err = sum / sizeks ; noise[i] -= err over the same range
-        recentre = [p for p in kps if p["kind"] == "store" and p["op"] == "-=" and p["loops"] and draws and p["lv"][1] == draws[0]["lv"][1]]
-        if len(recentre) != 1 or (recentre[0]["loops"][0]["lo"], recentre[0]["loops"][0]["hi"]) != (ZERO, sizeks):
-            problems.append("recentring does not cover exactly the draws")
-        chk.require(not problems, "R2", "lweCreateKeySwitchKey: one recentred Gaussian per row (i, j, h>=1), consumed in order", where=ks.where,
-                    ok="n*t*(base-1) draws; mean of those draws subtracted from each; row (i,j,h) takes noise[index++] under the output key",
-                    bad="; ".join(problems)[:500], variant=vn)
+        check_ks_noise(chk, v)
         en = v.fn("lweSymEncryptWithExternalNoise")
         eps, _ = summ.pieces(v, en, hooks=NOINLINE)
         r, m, nz, al, ky = [p["n"] for p in en.params]
